@@ -517,7 +517,7 @@ func fedBody(c *runner.Ctx) {
 	nReq := 1 + c.Choose(4, "requests")
 	var reqs []*fedRequest
 	for i := 0; i < nReq; i++ {
-		g := &gen{c: c, w: w, budget: 12, noD: true, bs2: bs2Home != "", unionFrags: c.Choose(3, "union-type-fragments") == 1}
+		g := &gen{c: c, w: w, budget: 12, noD: true, bs2: bs2Home != "", unionFrags: c.Choose(3, "union-type-fragments") == 1, bareFrags: true}
 		var r *fedRequest
 		if c.Choose(4, "request-kind") == 1 {
 			// a mutation whose response selects fields that live on other services
